@@ -165,6 +165,11 @@ def make_validators(trace, sock, banner_verdict):
             apply_verdict(reply, verdict_of(helo_as))
 
         def handle_mail(self, reply, address, params):
+            # MAIL is only valid outside a transaction: whatever an earlier (completed, rejected, reset) transaction left in
+            # session.envelope - the documented way for validators to look at the transaction - must be gone by now
+            env = getattr(self.session, 'envelope', None)
+            if env is not None:
+                self._rec('STALE', env.sender, tuple(env.recipients))
             self._rec('MAIL', address)
             apply_verdict(reply, verdict_of(address))
 
@@ -686,6 +691,10 @@ def judge_session(items, exps, model, res, cfg, prefix='C07'):
         return [('%s:banner' % prefix, '%s: %r' % (desc, replies[:1]))]
     ends = [r[2] for r in replies]
     ri = 1
+    stale = [t for t in res.trace if t[0] == 'STALE']
+    if stale:
+        return [('%s:transaction-not-forgotten:edge' % prefix, '%s: when the MAIL validator ran, session.envelope still held %r'
+                 % (desc, stale[0][1]))]
     trace = [t for t in res.trace if t[0] not in ('BANNER', 'CLOSE', 'TLSHANDSHAKE')]
     ti = 0
     ended = want_banner in ('221', '421')
